@@ -34,6 +34,7 @@ ASSUMPTIONS = [
 ACTIONS = ['read', 'change', 'do', 'ping', 'foo', 'bar']     # foo, bar: unknown (experimental) actions
 IDENTS = ['m:p', 'm:q']
 TIMEOUT = 10.0
+STEP_COST = 0.002     # virtual seconds per executed step
 PROMPT = 2.0          # "released promptly": virtual seconds granted after the connection was lost / shut down
 
 
@@ -56,7 +57,9 @@ def run_case(case):
     from frappy.datatypes import FloatRange
     from harness import dsched
 
-    s = dsched.Scheduler(_policy(case['sched']), max_steps=3000)
+    # STEP_COST: a busy exchange between rx and tx (parked requests re-queued while their key is busy) must not
+    # stop the virtual clock
+    s = dsched.Scheduler(_policy(case['sched']), max_steps=12000, step_cost=STEP_COST)
     reqs = case['reqs']
     n = len(reqs)
     script = case['peer']
@@ -361,7 +364,8 @@ def oracle(case, obs):
             continue
         kind = o[0]
         # no caller waits longer than its time-out
-        if obs['waited'][i] > TIMEOUT + 1e-6:
+        # (the scheduler may run other threads before the timed-out caller: STEP_COST per step of slack)
+        if obs['waited'][i] > TIMEOUT + 1e-6 + STEP_COST * len(obs['decisions']):
             fail('waited-too-long', f'caller {i} waited {obs["waited"][i]} s')
         if kind in ('reply', 'error'):
             tok = o[1]
@@ -544,7 +548,7 @@ def systematic_cases(max_pairs):
 
 def gen_cases(seed, tier):
     rng = random.Random(seed * 1000003 + 11)
-    n = {'quick': 3000, 'thorough': 40000, 'search': 40000}[tier]
+    n = {'quick': 2400, 'thorough': 40000, 'search': 40000}[tier]
     cases = [rand_case(rng) for _ in range(n)]
     cases.extend(systematic_cases(100 if tier == 'quick' else 3000))
     return cases
